@@ -1,0 +1,22 @@
+//go:build verif
+
+package filesystem
+
+import "github.com/cossacklabs/acra/keystore"
+
+// Exports for the verification harness (property C18/C07, v1 key store): the name classification of
+// KeyBackuper.Export/Import.
+
+// VerifIsHistoricalFilename is isHistoricalFilename.
+func VerifIsHistoricalFilename(name string) bool { return isHistoricalFilename(name) }
+
+// VerifIsPrivate is isPrivate.
+func VerifIsPrivate(name string) bool { return isPrivate(name) }
+
+// VerifIsPublic is isPublic.
+func VerifIsPublic(name string) bool { return isPublic(name) }
+
+// VerifGetContextFromFilename is getContextFromFilename.
+func VerifGetContextFromFilename(name string) keystore.KeyContext {
+	return getContextFromFilename(name)
+}
